@@ -19,6 +19,7 @@ import (
 	"os/exec"
 	"path/filepath"
 	"strings"
+	"syscall"
 	"time"
 
 	"github.com/zerx-lab/wordZero/pkg/markdown"
@@ -136,7 +137,7 @@ func runMdIn(c Case, emit Emitter) {
 			var out []byte
 			ret, saveret, pmsg := "ok", "none", ""
 			switch api {
-			case "file", "batch":
+			case "file", "batch", "missing":
 				if tmp == "" {
 					d, err := os.MkdirTemp("", "wzh-mdin-")
 					if err != nil {
@@ -146,13 +147,15 @@ func runMdIn(c Case, emit Emitter) {
 					tmp = d
 				}
 				in := filepath.Join(tmp, fmt.Sprintf("in%d.md", i))
-				if err := os.WriteFile(in, []byte(md), 0o644); err != nil {
+				if api == "missing" {
+					in = filepath.Join(tmp, fmt.Sprintf("missing%d.md", i))
+				} else if err := os.WriteFile(in, []byte(md), 0o644); err != nil {
 					fmt.Fprintln(os.Stderr, "mdin:", err)
 					os.Exit(2)
 				}
 				outPath := filepath.Join(tmp, fmt.Sprintf("in%d.docx", i))
 				ret, pmsg = guard(func() string {
-					if api == "file" {
+					if api != "batch" {
 						return errRet(conv.ConvertFile(in, outPath, co))
 					}
 					other := filepath.Join(tmp, "other.md")
@@ -242,7 +245,11 @@ func runMdIn(c Case, emit Emitter) {
 	}
 }
 
-const mdiChildLimit = 30 * time.Second
+// The child limits its own CPU time (robust against a loaded machine); the wall-clock limit is a last resort.
+const (
+	mdiChildCPU   = 120 // seconds of CPU time
+	mdiChildLimit = 15 * time.Minute
+)
 
 // mdiRunChild converts tok^n in a child process (a stack overflow or a hang must not kill the harness).
 func mdiRunChild(tok string, n, mask int) mdiM {
@@ -276,7 +283,12 @@ func mdiRunChild(tok string, n, mask int) mdiM {
 		return res
 	}
 	if err != nil {
-		return res // the child died: fatal
+		if ee, ok := err.(*exec.ExitError); ok {
+			if ws, ok := ee.Sys().(syscall.WaitStatus); ok && ws.Signaled() && (ws.Signal() == syscall.SIGXCPU || ws.Signal() == syscall.SIGKILL) {
+				res["ret"] = "timeout" // CPU limit exceeded
+			}
+		}
+		return res // otherwise the child died: fatal
 	}
 	b, err := os.ReadFile(of)
 	if err != nil {
@@ -297,6 +309,7 @@ func mdiRunChild(tok string, n, mask int) mdiM {
 
 // runMdInChild is the child side: one conversion, outcome logged.
 func runMdInChild(c Case, emit Emitter) {
+	syscall.Setrlimit(syscall.RLIMIT_CPU, &syscall.Rlimit{Cur: mdiChildCPU, Max: mdiChildCPU + 5})
 	for _, op := range c.Steps {
 		tok, n, mask := op.Str("tok"), op.Int("n"), op.Int("mask")
 		s := mdiTotToks[tok]
